@@ -503,18 +503,30 @@ xds_decoder(vbi_decoder *vbi, int _class, int type,
 				sum &= ((1UL << 31) - 1);
 				sum |= 1UL << 30;
 
-				if (n->nuid != 0) {
-					/* Resets the caption decoder too,
-					   which takes the mutex. */
-					pthread_mutex_unlock (&vbi->cc.mutex);
-					vbi_chsw_reset(vbi, sum);
-					pthread_mutex_lock (&vbi->cc.mutex);
+				/* As with VPS and 8/30: the station confirmed
+				   again, for example after a single deviating
+				   reception, is not a channel change. */
+				if (sum != n->nuid
+				    || 0 != strcmp ((const char *) n->name,
+						    (const char *)
+						    vbi->cc.xds_net_name)) {
+					if (n->nuid != 0) {
+						/* Resets the caption decoder too,
+						   which takes the mutex. */
+						pthread_mutex_unlock (&vbi->cc.mutex);
+						vbi_chsw_reset(vbi, sum);
+						pthread_mutex_lock (&vbi->cc.mutex);
+					}
+
+					n->nuid = sum;
+
+					strlcpy ((char *) vbi->cc.xds_net_name,
+						 (const char *) n->name,
+						 sizeof (vbi->cc.xds_net_name));
+
+					vbi->network.type = VBI_EVENT_NETWORK;
+					caption_send_event(vbi, &vbi->network);
 				}
-
-				n->nuid = sum;
-
-				vbi->network.type = VBI_EVENT_NETWORK;
-				caption_send_event(vbi, &vbi->network);
 
 				vbi->network.type = VBI_EVENT_NETWORK_ID;
 				caption_send_event(vbi, &vbi->network);
